@@ -267,11 +267,12 @@ SPEC_ARGS = [['7', '2'], ['4', '2'], ['-4', '-2'], ['0', '0'], ['300', '150']]
 
 
 # ------------------------------------------------ constant arrays side by side
-def table_programs():
+def table_programs(keep=True):
     """constant arrays of different element types whose values coincide, declared side by side (global and local, const
     and mutable) and passed by reference: each name must keep meaning its own elements"""
     seqs = [[1, 0, 1], [1, 1], [3], [0], [0, 0, 0], [1], [1, 0, 0], [2, 3, 5, 7], [0] * 8 + [1], [1] + [0] * 8, [65, 66]]
-    mk = {INT: lambda v: Lit(INT, v, keep=True), BYTE: lambda v: Lit(BYTE, v, keep=True), BOOL: lambda v: Lit(BOOL, bool(v), keep=True)}
+    # keep=False lets the opaque rendering route the elements through the mutable global (C14 twins); globals stay literal
+    mk = {INT: lambda v: Lit(INT, v, keep=keep), BYTE: lambda v: Lit(BYTE, v, keep=keep), BOOL: lambda v: Lit(BOOL, bool(v), keep=keep)}
     shows = {}
     for el in (INT, BYTE, BOOL):
         p = Var('p', Arr(el, True))
@@ -291,11 +292,10 @@ def table_programs():
                     k += 1
                     const = k % 3 != 0
                     t = Arr(el, const)
-                    d = Decl(f'c{k}', t, ArrLit([mk[el](v) for v in seq], el, const))
                     if where == 'global' or (where == 'mixed' and k % 2):
-                        gl.append(d)
+                        gl.append(Decl(f'c{k}', t, ArrLit([Lit(el, bool(v) if el == BOOL else v, keep=True) for v in seq], el, const)))
                     else:
-                        body.append(d)
+                        body.append(Decl(f'c{k}', t, ArrLit([mk[el](v) for v in seq], el, const)))
                     body.append(ExprStmt(Call(shows[el], [Var(f'c{k}', t)])))
                     body.append(W(Index(Var(f'c{k}', t), Lit(INT, len(seq) - 1))) if el != BYTE else W(Cast(Index(Var(f'c{k}', t), Lit(INT, len(seq) - 1)), INT)))
                     body.append(_mark('\n'))
@@ -518,6 +518,26 @@ def history_programs():
                         [try_stmt(k1, s1, arg(0), 'A'), W(g), _mark(' '), try_stmt(k2, s2, arg(1), 'B'), W(g), _mark(' '),
                          try_stmt(k1, s1, arg(0), 'C'), W(g), _mark(' '), try_stmt(k2, s2, arg(0), 'D'), W(g), _mark('\n')])
             yield f'history/{k1}-{s1}/{k2}-{s2}', Program([Decl('g', INT, _i(0))], [main] + list(fs))
+            if s1 in ('call', 'arrays', 'nested', 'preempting') and s2 in ('call', 'arrays', 'nested', 'preempting'):
+                # the second block lives in ANOTHER you-function, called (and compiled) after the defeat functions were first used
+                second = Func('@second', [('v', Arr(INT, True), False)], EMPTY, [try_stmt(k2, s2, arg(1), 'B'), W(g), _mark(' '), try_stmt(k2, s2, arg(0), 'D'), W(g), _mark(';')])
+                main2 = Func('@is_you', [('v', Arr(INT, True), False)], EMPTY,
+                             [try_stmt(k1, s1, arg(0), 'A'), W(g), _mark(' '), ExprStmt(Call(second, [ARG])), try_stmt(k1, s1, arg(1), 'C'), W(g), _mark(' '),
+                              ExprStmt(Call(second, [ARG])), _mark('\n')])
+                yield f'history-two-functions/{k1}-{s1}/{k2}-{s2}', Program([Decl('g', INT, _i(0))], [main2, second] + list(fs))
+    # (a') a try nested in the HANDLER of the first block (in its own you-function), then further blocks: an inner handler that
+    # ran must not stay armed, an inner body that was undone must leave no trace
+    for k1 in ('undo', 'stop'):
+        for kin in ('undo', 'stop'):
+            for s_in in ('tid', 'call', 'arrays', 'nested'):
+                for k2, s2 in (('undo', 'call'), ('stop', 'call'), ('undo', 'tid')):
+                    inner = try_stmt(kin, s_in, arg(1), 'I')
+                    outer = Try([_mark('A'), OpAssign(g, '+', _i(1))] + _source('call', arg(0), fs) + [_mark('.')], k1, [_mark(k1[0]), inner, W(g), OpAssign(g, '+', _i(10))])
+                    guard = Func('@guard', [('v', Arr(INT, True), False)], EMPTY, [outer, W(g), _mark(';')])
+                    main = Func('@is_you', [('v', Arr(INT, True), False)], EMPTY,
+                                [ExprStmt(Call(guard, [ARG])), try_stmt(k2, s2, arg(0), 'B'), W(g), _mark(' '), try_stmt(k2, s2, arg(1), 'C'), W(g), _mark(' '),
+                                 ExprStmt(Call(guard, [ARG])), try_stmt('undo', 'call', Bin('-', _i(1), arg(0)), 'D'), W(g), _mark('\n')])
+                    yield f'history-nested-handler/{k1}/{kin}-{s_in}/{k2}-{s2}', Program([Decl('g', INT, _i(0))], [main, guard] + list(fs))
     routes = ('fall', 'break', 'continue', 'return')
 
     def leave(r):
